@@ -416,7 +416,7 @@ func init() {
 	fw.Register(&fw.Property{
 		ID:     "C16",
 		Run:    runC16,
-		Rule:   "every token sequence up to the tier's length over {( ) [ ] { } #{ a \"s\" ' ^ comment} plus, for seeded well-formed expressions of <=40 tokens over all bracket kinds, reader macros, strings/raw strings/comments containing brackets and «go-error …»: the full text, every cut after a token, every closer appended, one closer replaced by another kind, and a second expression appended; each text is classified by the harness's own bracket-stack machine (complete / completable by closers with innermost closer / surplus, mismatch or several expressions / otherwise malformed) and READ's error is judged with the REPL's own multiLine classifier; distinct = distinct token sequences",
+		Rule:   "every token sequence up to the tier's length over {( ) [ ] { } #{ a \"s\" ' ^ comment} plus, for seeded well-formed expressions of <=40 tokens over all bracket kinds, reader macros, strings/raw strings/comments containing brackets and «go-error …»: the full text, every cut after a token, every closer appended, one closer replaced by another kind, and a second expression appended; each text is classified by the harness's own bracket-stack machine (complete / completable by closers with innermost closer / surplus, mismatch or several expressions / otherwise malformed) and READ's error is judged with the REPL's own multiLine classifier; distinct = distinct token sequences; REPL sessions: the real loop (repl.Execute, readline fed from a pipe) receives 2-6 self-evaluating entries typed over several lines with comments (some containing brackets) at line ends and on lines of their own: exactly one result line per entry, equal to the entry's value",
 		Assume: []string{"'completable by appending closers' is computed by the harness stack machine (pending reader-macro operands, odd map arity, non-string map keys / set members make a prefix not completable: then only 'not accepted' is demanded)"},
 		Finish: func(m *fw.Merged) {
 			for _, cl := range []string{")", "]", "}"} {
